@@ -363,11 +363,11 @@ class World:
             elif t == ReportType.DROPOFF_REQUEST_EVENT:
                 out.append(self.TL(['TZ 4', self.TP(self.it.i(d['request_id'])), self.TP(self.it.i(d['vehicle_id'])), self.TP(self.it.g(d['geoid'])), self.TZ(d['dropoff_time'])]))
             elif t == ReportType.VEHICLE_MOVE_EVENT:
-                out.append(self.TL(['TZ 5', self.TP(self.it.i(d['vehicle_id'])), self.TQ(d['distance_km']), self.TZ(d['sim_time_end'])]))
+                out.append(self.TL(['TZ 5', self.TP(self.it.i(d['vehicle_id'])), self.TQ(d['distance_km']), self.TZ(d['sim_time_start'])]))
             elif t == ReportType.VEHICLE_CHARGE_EVENT:
                 et = 'TZ 1' if d['energy_units'] == EnergyType.ELECTRIC.units else 'TZ 2'
                 out.append(self.TL(['TZ 6', self.TP(self.it.i(d['vehicle_id'])), self.TP(self.it.i(d['station_id'])), self.TP(self.it.i(d['charger_id'])), et,
-                                    self.TQ(d['energy']), self.TQ(d['price']), self.TZ(d['sim_time_end'])]))
+                                    self.TQ(d['energy']), self.TQ(d['price']), self.TZ(d['sim_time_start'])]))
             elif t == ReportType.DRIVER_SCHEDULE_EVENT:
                 out.append(self.TL(['TZ 7', self.TP(self.it.i(d['vehicle_id'])), 'TZ 1' if d['schedule_event'] == 'on' else 'TZ 0', self.TZ(d['sim_time_start'])]))
         return self.TL(out)
@@ -466,6 +466,19 @@ def run_op(w, op):
         raise ValueError(kind)
     return txt, status
 
+_ANCHORS = None
+def props_anchored_in(path):
+    global _ANCHORS
+    if _ANCHORS is None:
+        import json
+        _ANCHORS = {}
+        here = os.path.dirname(os.path.dirname(os.path.abspath(__file__)))
+        for line in open(os.path.join(here, 'properties.jsonl')):
+            p = json.loads(line)
+            for f in p['anchors']['files']:
+                _ANCHORS.setdefault(f, []).append(p['id'])
+    return _ANCHORS.get(path, [])
+
 def run_case_impl(w, n_ops, stream, observers=(), fixed_ops=None):
     """runs ops on the implementation; returns the Coq text of the case, the ops run and the violations.
     stream.next(w) yields the next op from the current world (or fixed_ops is replayed);
@@ -486,7 +499,21 @@ def run_case_impl(w, n_ops, stream, observers=(), fixed_ops=None):
         op = stream.next(w) if fixed_ops is None else fixed_ops[k]
         ops.append(op)
         before = w.sim
-        optxt, status = run_op(w, op)
+        try:
+            optxt, status = run_op(w, op)
+        except CaseError:
+            raise
+        except Exception as ex:
+            # the implementation raised in the middle of an operation: the case ends here; what the monitors saw so far is kept,
+            # and the exception itself is reported against the properties anchored in the file that raised it
+            import traceback
+            frames = [f for f in traceback.extract_tb(ex.__traceback__) if '/nrel/hive/' in f.filename]
+            where = frames[-1].filename.split('/nrel/hive/')[-1] if frames else '?'
+            for prop in props_anchored_in('nrel/hive/' + where):
+                violations.append((k, (prop, 'implementation_raised', {'exception': type(ex).__name__, 'message': str(ex)[:100], 'in': where,
+                                                                      'function': frames[-1].name if frames else '?', 'op': op[0]})))
+            ops.pop()
+            break
         reports = w.reporter.take()
         w.history.append(w.sim)
         expected = w.TL([w.TZ(status), w.fp_sim(w.sim), w.fp_events(reports)])
